@@ -218,8 +218,10 @@ func (n ConverterNode) ReturnsError() bool {
 // AssignExpr returns a value evaluate expression for assignment.
 // For example, it returns "dst.User.Name", "dst.User.Status()", "strconv.Itoa(dst.User.Score())", etc.
 func (n ConverterNode) AssignExpr() string {
+	// The converter takes a pointer to what the argument is (T for *T, but also *T for **T):
+	// pass the address.
 	refStr := ""
-	if !util.IsPtr(n.arg.ExprType()) && util.IsPtr(n.converter.ArgType()) {
+	if util.IsPtr(n.converter.ArgType()) && !types.AssignableTo(n.arg.ExprType(), n.converter.ArgType()) {
 		refStr = "&"
 	}
 	return fmt.Sprintf("%v(%v%v)", n.converter.Converter(), refStr, n.arg.AssignExpr())
